@@ -106,7 +106,7 @@ double tdigest<T, A>::get_rank(T value) const {
   if (value < first_mean) {
     if (first_mean - min_ > 0) {
       if (value == min_) return 0.5 / centroids_weight_;
-      return (1.0 + (value - min_) / (first_mean - min_) * (centroids_.front().get_weight() / 2.0 - 1.0)); // ?
+      return (1.0 + (value - min_) / (first_mean - min_) * (centroids_.front().get_weight() / 2.0 - 1.0)) / centroids_weight_;
     }
     return 0; // should never happen
   }
